@@ -17,7 +17,7 @@ def run(pid, tier, seed, replay=None):
         ck.add_tlc("MC_Memory", res)
         exe = vlib.build_driver("mem_driver", "asan")
         log = os.path.join(wd, "mem.ndjson")
-        rc, so, err, _ = vlib.run_driver(exe, [str(150 if tier == "quick" else 6000), str(seed), log], timeout=3000)
+        rc, so, err, _ = vlib.run_driver(exe, [str(150 if tier == "quick" else 2500), str(seed), log], timeout=3000)
         if rc != 0:
             ck.violation({"class": "crash"}, {"what": "memory driver died", "stderr": err[-3000:]})
             return ck.finish()
